@@ -16,7 +16,9 @@ INVS = ("INVARIANTS ReqLimit RespLimit Oversized413Unforwarded ExactLimitPasses 
 
 def run(ctx):
     ctx.cov["rule"] = ("scenario = (direction, path/pool-level limit, server/proxy-level limit, announcement cl|chunked|close, size class "
-                       "around the effective limit, lying length, route cache on/off (requests), proxy compression on/off (responses), media type "
+                       "around the effective limit, lying length, route cache on/off (requests), proxy compression on/off (responses), hot update of the "
+                       "HTTPServer that changes the path-level or the server-level limit between the first and the second request (requests), request taken in "
+                       "as a stream or buffered (responses), media type "
                        "the body is labelled with: none|octet-stream|text|json|event-stream|grpc|multipart) "
                        "enumerated by TLC from specs/ProxyMsgLimit_Gen.tla; a scenario with the route cache on is a sequence of identical "
                        "requests on one mux instance; evaluation = one real exchange over sockets whose recording TLC evaluated against the "
@@ -29,27 +31,38 @@ def run(ctx):
         "one class each in the quick tier (rotating with the scenario index and the seed), with all in the thorough tier",
         "with proxy compression the limit is applied by the code to the compressed body; the text does not say which size counts: a response "
         "below the limit that may exceed it once compressed (n + n/100 + 100 bytes) is not judged; response bodies are incompressible",
+        "a hot update of the HTTPServer (mux.reload on the running mux) is in force for every request made after it: each request is judged by "
+        "the settings configured when it is made; updates change one of the two settings, bodies stay sized around the first settings",
+        "whether the route takes requests in as streams (clientMaxBodySize -1) has no bearing on the limit of the response",
         "a streamed response that breaks off must be visibly broken: incomplete framing, or a gzip-labelled body that is not a complete gzip stream",
     ]
     if ctx.phase("mc"):
-        for d in (8, 9):
-            r = ctx.tlc_mc("ProxyMsgLimit", "SPECIFICATION Spec\nCONSTANTS\n  CodeDefault = %d\n  HitLimit = \"kept\"\n  Exempt = {}\n" % d + INVS,
+        for d in (40, 41):
+            r = ctx.tlc_mc("ProxyMsgLimit", "SPECIFICATION Spec\nCONSTANTS\n  CodeDefault = %d\n  HitLimit = \"kept\"\n  Exempt = {}\n  Defect = \"none\"\n" % d + INVS,
                            label="FetchPayload + limit selection refine the contract, default=%d" % d, timeout=600, workers=4)
         ctx.log("model checked: %d distinct states" % r.distinct)
     if ctx.phase("lead"):
-        r = ctx.tlc_mc("ProxyMsgLimit", "SPECIFICATION Spec\nCONSTANTS\n  CodeDefault = 20\n  HitLimit = \"kept\"\n  Exempt = {}\nINVARIANTS ReqLimit RespLimit\n",
+        r = ctx.tlc_mc("ProxyMsgLimit", "SPECIFICATION Spec\nCONSTANTS\n  CodeDefault = 100\n  HitLimit = \"kept\"\n  Exempt = {}\n  Defect = \"none\"\nINVARIANTS ReqLimit RespLimit\n",
                        expect_ok=False, count=False, label="lead: default outside the interval must violate the contract", timeout=600, workers=4)
         if r.violated not in ("ReqLimit", "RespLimit"):
             ctx.inconclusive("a code model with a wrong default does not violate the contract (vacuous?):\n" + r.out[-1500:])
-        r = ctx.tlc_mc("ProxyMsgLimit", "SPECIFICATION Spec\nCONSTANTS\n  CodeDefault = 8\n  HitLimit = \"lost\"\n  Exempt = {}\nINVARIANTS ReqLimit\n",
+        r = ctx.tlc_mc("ProxyMsgLimit", "SPECIFICATION Spec\nCONSTANTS\n  CodeDefault = 40\n  HitLimit = \"lost\"\n  Exempt = {}\n  Defect = \"none\"\nINVARIANTS ReqLimit\n",
                        expect_ok=False, count=False, label="lead: a cached route that forgets the limit must violate the contract", timeout=600, workers=4)
         if r.violated != "ReqLimit":
             ctx.inconclusive("a code model whose cached route forgets the limit does not violate the contract (vacuous?):\n" + r.out[-1500:])
-        r = ctx.tlc_mc("ProxyMsgLimit", "SPECIFICATION Spec\nCONSTANTS\n  CodeDefault = 8\n  HitLimit = \"kept\"\n  Exempt = {\"sse\"}\n"
+        r = ctx.tlc_mc("ProxyMsgLimit", "SPECIFICATION Spec\nCONSTANTS\n  CodeDefault = 40\n  HitLimit = \"kept\"\n  Exempt = {\"sse\"}\n  Defect = \"none\"\n"
                        "INVARIANTS ReqLimit RespLimit\n", expect_ok=False, count=False,
                        label="lead: a media type exempted from the limit must violate the contract", timeout=600, workers=4)
         if r.violated not in ("ReqLimit", "RespLimit"):
             ctx.inconclusive("a code model that exempts a media type from the limit does not violate the contract (vacuous?):\n" + r.out[-1500:])
+        if not ctx.quick:
+            for defect, inv, what in (("stale-reload", "ReqLimit", "a hot update of the server-level limit that keeps the old mux instance"),
+                                      ("coupled", "RespLimit", "a response limit that is dropped when the request was taken in as a stream")):
+                r = ctx.tlc_mc("ProxyMsgLimit", "SPECIFICATION Spec\nCONSTANTS\n  CodeDefault = 40\n  HitLimit = \"kept\"\n  Exempt = {}\n  Defect = \"%s\"\n"
+                               "INVARIANTS ReqLimit RespLimit\n" % defect, expect_ok=False, count=False,
+                               label="lead: %s must violate the contract" % what, timeout=600, workers=4)
+                if r.violated != inv:
+                    ctx.inconclusive("a code model with %s does not violate the contract (vacuous?):\n%s" % (what, r.out[-1500:]))
     if ctx.phase("mbt"):
         _mbt(ctx)
 
@@ -60,7 +73,8 @@ def _select(ctx, vecs):
     lying length, stream) they are run with EVERY media type, the others with one (rotating with the seed).  Scenarios with
     bodies of megabytes (default limit, streams beyond the default) are run with one media type each in the quick tier
     (rotating, so that every type meets every such scenario over the seeds and all types are met in every run) and with
-    all of them in the thorough tier."""
+    all of them in the thorough tier.  Scenarios with a hot update of the limits and response scenarios whose request is taken in
+    as a stream come with one media type from the generator."""
     base = {}
     for v in vecs:
         k = pm.jdump({x: v[x] for x in v if x not in ("ctype",)})
@@ -71,6 +85,8 @@ def _select(ctx, vecs):
         v0 = vs[0]
         big = v0["level"] == "default" or v0["rel"] == "beyond-default"
         decisive = v0["stream"] or v0["short"] or v0["rel"] in ("lo", "hi+1", "x4")
+        if v0["upd"] and ctx.quick and (i + ctx.seed) % 2:
+            continue            # hot-update scenarios: every other one in the quick tier (rotating with the seed), all in the thorough tier
         if (not big and decisive) or (big and not ctx.quick):
             out += vs
         else:
@@ -109,6 +125,11 @@ def _mbt(ctx):
         seen[e["case"]] = seen.get(e["case"], 0) + 1
     if not any(by_id[c]["cache"] and n > 1 for c, n in seen.items()):
         ctx.inconclusive("no sequence of repeated requests with the route cache on was carried out")
+    nupd = sum(1 for e in events if e.get("updated"))
+    nrs = sum(1 for e in events if e["dir"] == "resp" and e.get("rstream") and by_id[e["case"]]["rel"] in ("hi+1", "x4") and not by_id[e["case"]]["stream"])
+    if nupd < 20 or nrs < 10:
+        ctx.inconclusive("only %d requests after a hot update of the limits and %d oversized responses to requests taken in as streams were carried out" % (nupd, nrs))
+    ctx.log("%d requests after a hot update of the limits, %d oversized responses to requests taken in as streams" % (nupd, nrs))
     if not any(by_id[c]["comp"] and by_id[c]["short"] for c in seen):
         ctx.inconclusive("no compressed response that breaks off was carried out")
     ctx.evals(len(events))
@@ -116,7 +137,7 @@ def _mbt(ctx):
     for e in events:
         c = by_id[e["case"]]
         if c["stream"] or c["short"] or c["rel"] in ("lo", "hi+1", "x4"):
-            ctx.nontrivial({k: c[k] for k in ("dir", "inner", "outer", "enc", "rel", "short", "cache", "comp", "ctype")})
+            ctx.nontrivial({k: c[k] for k in ("dir", "inner", "outer", "enc", "rel", "short", "cache", "comp", "ctype", "inner2", "outer2", "rstream")})
     for e in events[:3]:
         ctx.sample({"kind": "exchange", "dir": e["dir"], "limits": [e["inner"], e["outer"]], "body": e["w"], "observed": e["o"]})
     drift = 0
@@ -129,16 +150,20 @@ def _mbt(ctx):
                 ctx.notes.append("model drift (contract satisfied): fields %s scenario %s observed %s" % (dr, pm.jdump(e["scn"]), pm.jdump(e["o"])))
             continue
         sig = {"dir": c["dir"], "level": c["level"], "stream": c["stream"], "enc": c["enc"], "rel": c["rel"], "short": c["short"],
-               "cache": c["cache"], "comp": c["comp"], "repeat": e["k"] > 1}
+               "cache": c["cache"], "comp": c["comp"], "repeat": e["k"] > 1,
+               # after a hot update of the HTTPServer that changed the path-level / the server-level limit
+               "updated": ("inner" if c["inner2"] != c["inner"] else "outer") if e.get("updated") else "no",
+               "reqStream": c["rstream"]}
         sig["ctype"] = c["ctype"]
         o = e["o"]
         if c["dir"] == "req":
-            what = ("request %d of a sequence of identical requests (route cache %s): body (Content-Type class %s) announced as %s (%s bytes declared, %s sent) with "
+            what = ("" if not e.get("updated") else "after a hot update of the HTTPServer that changed clientMaxBodySize from path=%s server=%s: " % (
+                c["inner"], c["outer"])) + ("request %d of a sequence of identical requests (route cache %s): body (Content-Type class %s) announced as %s (%s bytes declared, %s sent) with "
                     "clientMaxBodySize path=%s server=%s: client got %s, backend contacted=%s, received intact=%s" % (
                         e["k"], "on" if c["cache"] else "off", c["ctype"], c["enc"], e["w"]["declared"], e["w"]["actual"], e["inner"], e["outer"], o["status"],
                         o["forwarded"], o["intact"]))
         else:
-            what = ("backend response (Content-Type class %s) announced as %s (%s bytes declared, %s sent) with serverMaxBodySize pool=%s proxy=%s, proxy compression %s: "
+            what = ("" if not c["rstream"] else "request taken in as a stream (clientMaxBodySize -1): ") + ("backend response (Content-Type class %s) announced as %s (%s bytes declared, %s sent) with serverMaxBodySize pool=%s proxy=%s, proxy compression %s: "
                     "client got status %s, %s body bytes (Content-Encoding %r), complete=%s, intact=%s" % (
                         c["ctype"], c["enc"], e["w"]["declared"], e["w"]["actual"], e["inner"], e["outer"], "on" if c["comp"] else "off", o["status"],
                         o["got"], o.get("label"), o["complete"], o["intact"]))
